@@ -1,6 +1,7 @@
 NOTES = ("Static analysis only: every check re-extracts a typed AST + CFG of the current /repo tree with the "
-         "LibTooling extractor build/tlxir and decides repository-specific rules in Python. tlx code is never "
-         "executed. Exit 0 = all claimed clauses hold, 1 = VIOLATION lines, 2 = analysis broken / undecidable "
+         "LibTooling extractor build/tlxir and decides repository-specific rules in Python. tlx code is never compiled "
+         "into a program and run; rules marked [eval] in level_claimed.text interpret the extracted AST themselves on a small finite "
+         "domain that they name (bounded evidence, DESIGN.md 4.1), rules marked [struct] decide over the code's structure for all values. Exit 0 = all claimed clauses hold, 1 = VIOLATION lines, 2 = analysis broken / undecidable "
          "(anchor vanished, construct not understood). Clauses that are not decided are listed per property in level_note.")
 
 ALLP = ['C%02d' % i for i in range(1, 21)]
